@@ -569,6 +569,7 @@ func (e *engine) ClassifyDeath(stderr string, exit int, p []byte) simkit.Violati
 // ------------------------------------------------------------- run
 
 func (e *engine) Run(src *vs.Source, tier string, idx int64) *simkit.RunResult {
+	vs.PoolReset() // a run is a function of its seed, not of what earlier runs left in a sync.Pool
 	res := &simkit.RunResult{Stats: map[string]int64{}, Max: map[string]int64{}}
 	c := &runCtx{res: res, tuples: map[string]struct{}{}, sigSeen: map[string]bool{}}
 	m := src.Stream("main")
